@@ -268,6 +268,9 @@ type agg struct {
 	abortKinds map[string]int
 	crashes    []crash
 	diverged   int
+	// worker processes that died before starting a run (machinery trouble)
+	machinery    int
+	machineryMsg string
 }
 
 func newAgg() *agg {
@@ -351,6 +354,7 @@ func explore(spec *propSpec, bin string, seed uint64, seconds int, workers int, 
 				lines, npos := readLines(outPath, pos)
 				pos = npos
 				var lastStart *outLine
+				lastDone := false // the run announced by lastStart has reported its result
 				finished := false
 				sawHang := false
 				mu.Lock()
@@ -359,9 +363,12 @@ func explore(spec *propSpec, bin string, seed uint64, seconds int, workers int, 
 					switch l.T {
 					case "start":
 						lastStart = l
+						lastDone = false
 					case "hang":
 						a.crashes = append(a.crashes, crash{Idx: l.I, Seed: l.Seed, Kind: "hang", Stderr: "a task neither yielded nor blocked within the watchdog period (non-termination)"})
 						sawHang = true
+					case "end":
+						lastDone = true
 					case "run":
 						if l.Res == nil {
 							continue
@@ -400,7 +407,14 @@ func explore(spec *propSpec, bin string, seed uint64, seconds int, workers int, 
 					} else {
 						next += uint64(workers)
 					}
-					if (err != nil || kind != "crash") && !sawHang {
+					if (lastStart == nil || lastDone) && !sawHang {
+						// died outside any run (before the first, or between two): trouble of the machinery (bad job,
+						// binary that does not start), never a verdict about the code
+						a.machinery++
+						if a.machineryMsg == "" {
+							a.machineryMsg = firstLines(stderr, 12)
+						}
+					} else if (err != nil || kind != "crash") && !sawHang {
 						a.crashes = append(a.crashes, c)
 					}
 				}
@@ -572,6 +586,17 @@ func writeEvidence(spec *propSpec, tier string, seed uint64, a *agg, wall float6
 	for k, v := range a.sum.Extra {
 		cov[k] = v
 	}
+	if len(a.crashes) > 0 {
+		var cs []map[string]any
+		for i, c := range a.crashes {
+			if i == 3 {
+				break
+			}
+			cs = append(cs, map[string]any{"kind": c.Kind, "run_seed": c.Seed, "stderr_head": firstLines(c.Stderr, 25)})
+		}
+		cov["worker_crashes"] = len(a.crashes)
+		cov["crash_samples"] = cs
+	}
 	ev := map[string]any{
 		"property_id": spec.ID, "tier": tier, "seed": seed, "level": "exploration", "coverage": cov,
 		"assumptions": assumptions[spec.Engine],
@@ -669,12 +694,28 @@ func check(id, tier string) int {
 	if s := os.Getenv("VERIF_WORKERS"); s != "" {
 		workers, _ = strconv.Atoi(s)
 	}
+	if tier == "thorough" && spec.Engine == "cachesim" {
+		// thorough tier: one run in three uses the "+deep" variant of its profile
+		// (longer programs, more keys and clients; cachesim/plan.go)
+		cp := *spec
+		cp.Profiles = append(append([]string{}, spec.Profiles...), spec.Profiles...)
+		for _, p := range spec.Profiles {
+			cp.Profiles = append(cp.Profiles, p+"+deep")
+		}
+		spec = &cp
+	}
+	if s := os.Getenv("VERIF_PROFILES"); s != "" {
+		// experiments only: explore the given profiles instead of the registered ones
+		cp := *spec
+		cp.Profiles = strings.Split(s, ",")
+		spec = &cp
+	}
 	t0 := time.Now()
 	bin := build(spec.Engine, spec.Race)
 	buildS := time.Since(t0).Seconds()
 	a := explore(spec, bin, seed, seconds, workers, maxRuns)
 	if a.sum.Runs == 0 && len(a.crashes) == 0 {
-		die2("no run completed")
+		die2("no run completed%s", map[bool]string{true: ": worker processes died before their first run:\n" + a.machineryMsg, false: ""}[a.machinery > 0])
 	}
 	var notes []string
 	notes = append(notes, fmt.Sprintf("build %.1fs, exploration budget %ds on %d worker processes", buildS, seconds, workers))
@@ -752,6 +793,10 @@ func check(id, tier string) int {
 	}
 	if a.diverged > 0 {
 		notes = append(notes, fmt.Sprintf("%d runs reported a tape divergence", a.diverged))
+	}
+	if a.machinery > 0 {
+		notes = append(notes, fmt.Sprintf("%d worker processes died before starting a run (machinery trouble, not counted as runs): %s", a.machinery, a.machineryMsg))
+		fmt.Fprintf(os.Stderr, "MACHINERY: %d worker processes died before starting a run:\n%s\n", a.machinery, a.machineryMsg)
 	}
 	wall := time.Since(t0).Seconds()
 	writeEvidence(spec, tier, seed, a, wall, nviol, notes)
